@@ -63,38 +63,41 @@ type abortPath struct{ reason string }
 
 // Exec verifies one function against its contract.
 type Exec struct {
-	w            *World
-	fn           *ssa.Function
-	sel          string
-	con          *Contract
-	d            *Decls
-	obs          []*Obligation
-	entry        *State
-	ifacePreds   map[string]types.Type
-	assumptions  map[string]bool
-	unsupported  map[string]bool
-	paths        int
-	maxPaths     int
-	loopInfos    map[*ssa.Function]*LoopInfo
-	strLits      map[string]Term
-	siteOrd      map[ssa.Instruction]int
-	kindCount    map[string]int
-	coverCount   map[string]int
-	obSeen       map[string]bool
-	callOrds     map[*ssa.Function]map[ssa.Instruction]int
-	returns      int
-	safetyOnly   bool
-	uncontracted map[string]bool
-	specErrors   map[string]bool
-	entryBinds   map[string]TT
-	entryPC      int
-	atCallArgs   []Value
-	topFreeVars  []Value
-	linkSeen     map[string]bool
-	lastFrame    *Frame
-	lastRet      ssa.Instruction
-	stops        []*stopPoint
-	ipdoms       map[*ssa.Function]map[*ssa.BasicBlock]*ssa.BasicBlock
+	w             *World
+	fn            *ssa.Function
+	sel           string
+	con           *Contract
+	d             *Decls
+	obs           []*Obligation
+	entry         *State
+	ifacePreds    map[string]types.Type
+	assumptions   map[string]bool
+	unsupported   map[string]bool
+	paths         int
+	maxPaths      int
+	loopInfos     map[*ssa.Function]*LoopInfo
+	strLits       map[string]Term
+	siteOrd       map[ssa.Instruction]int
+	kindCount     map[string]int
+	coverCount    map[string]int
+	pendingFrames []callFrame
+	deferFrames   bool
+	ghostTypes    map[string]types.Type
+	obSeen        map[string]bool
+	callOrds      map[*ssa.Function]map[ssa.Instruction]int
+	returns       int
+	safetyOnly    bool
+	uncontracted  map[string]bool
+	specErrors    map[string]bool
+	entryBinds    map[string]TT
+	entryPC       int
+	atCallArgs    []Value
+	topFreeVars   []Value
+	linkSeen      map[string]bool
+	lastFrame     *Frame
+	lastRet       ssa.Instruction
+	stops         []*stopPoint
+	ipdoms        map[*ssa.Function]map[*ssa.BasicBlock]*ssa.BasicBlock
 }
 
 type arrival struct {
